@@ -265,6 +265,9 @@ def parent_side(ex):
         attrs = {'_results_pipe': rp, '_args_pipe': ap, '_started': VBool(True), '_dead': I.sym('dead0', 'bool'), '_child': child, '_tid': I.sym('child_tid'),
                  '_closed': I.sym('closed0', 'bool')}
         env['self'] = ex_.alloc(HObj(repo.cls(PTW), attrs))
+        env['self_child'] = child
+        # representation invariant of every worker kind (C04.L2): _dead is set only after the child has been observed dead
+        ex_.assume(z3.Implies(attrs['_dead'].e, z3.Not(ex_.abs_classes['Proc'].get(ex_, child, 'alive'))))
         q = rends['q']
         env['resq'] = q
         ac = ex_.abs_classes['Queue']
@@ -294,8 +297,16 @@ def parent_side(ex):
         inq = c.env['inq'].e
         p0 = c.env['ipos0'].e
         p1 = ex_.abs_classes['Queue'].get(ex_, q, 'ipos')
-        return z3.Or(z3.And(p1 == p0 + 1, p0 < z3.Length(inq), z3.Not(flag(inq[p0]))), z3.And(p1 == p0))
-    nr_empty.__doc__ = 'queue.Empty exactly for the end marker (consumed) or when nothing can be read (dead worker, nothing delivered)'
+        nothing = p1 == p0
+        blk = c.env['block']
+        if isinstance(blk, VBool) and z3.is_true(smt.simp(blk.e)) and c.env['timeout'] is NONE:
+            # a blocking call without timeout gives up without a message only on a worker that is dead: while the child lives - closed or not - its
+            # results and its end marker are still to come, and "nothing yet" is not "the stream has ended"
+            alive_now = z3.Select(ex_.absfields[('Proc', 'alive')], c.env['self_child'].key) if ('Proc', 'alive') in ex_.absfields else z3.BoolVal(True)
+            nothing = z3.And(nothing, z3.Not(alive_now))
+        return z3.Or(z3.And(p1 == p0 + 1, p0 < z3.Length(inq), z3.Not(flag(inq[p0]))), nothing)
+    nr_empty.__doc__ = ('queue.Empty exactly for the end marker (consumed) or when nothing can be read - which a blocking call without timeout may conclude only for a '
+                        'DEAD worker (a live one, closed or not, still owes its results and its end marker)')
     for bt in (('blocking', VBool(True)), ('non-blocking', VBool(False))):
         def su(ex_, env, b=bt[1]):
             consumer(ex_, env)
